@@ -59,12 +59,16 @@ Proof.
   - cbn -[range_loop index_of Z.add]. apply IH.
 Qed.
 
+Ltac run_lazy := lazy -[Z.add Z.sub Z.mul Z.ltb Z.leb Z.eqb Z.opp Z.shiftl Z.of_nat Z.to_nat zlen index_of last_index_of range_loop count_loop
+                         app nth_error pal_id pal_value bs_get bs_set bs_new blen cfg_bits cfg_create pc_get pc_set copy_loop positions].
+
 Lemma tie_linear_id vals cap pb v :
   id_result exp_linearPalette_id (run no_set exp_linearPalette_id (VPal (PLinear vals cap pb)) [VZ v])
   = Some (pal_id (PLinear vals cap pb) v).
 Proof.
-  unfold run, exec_body, run_fuel. cbn -[range_loop index_of Z.add Z.sub zlen].
-  fold find_body. rewrite range_find. cbn [pal_id].
-  destruct (index_of v vals 0) as [r|]; [reflexivity|].
-  cbn -[Z.add Z.sub zlen].
-Abort.
+  run_lazy. fold find_body.
+  rewrite (range_find v (VPal (PLinear vals cap pb)) 35 vals 0).
+  lazy [pal_id]. destruct (index_of v vals 0) as [r|]; [reflexivity|].
+  run_lazy.
+  destruct (0 <? cap - zlen vals); run_lazy; reflexivity.
+Qed.
